@@ -181,6 +181,11 @@ def check_averaging(ctx):
         want_vals = m_vals if part == "measured" else (nm_vals[0] if (part == "not-measured" and nm_vals) else None)
         ok = part is not None and va == want_vals and len(stores) == 1 and norm(stores[0].targets[0].value) == full and norm(stores[0].targets[0].slice) == ti and norm(stores[0].value) == tv
         seen.add(part)
+        if part == "measured" and m_vals is None:
+            # the list of measured values was not identified above (the evaluation has another shape): nothing can be said about
+            # which list this loop must zip -- the construct is lost, which is not a decided violation
+            ctx.undecided(R1, f.key + f":write-back:{ia}", f"the measured values could not be identified, so it is unknown whether `{va}` holds them", f)
+            continue
         ctx.check(ok, R1, f.key + f":write-back:{ia}", f"{part} values are written to the positions remembered for that partition", f"write-back loop zips {va} with {ia}: values of one partition must be stored at the indices remembered for the same partition", f"{f.module.relpath}:{l.lineno}")
     ctx.check(seen >= {"measured", "not-measured"}, R1, f.key + ":write-back:both", "both partitions are written back", "one of the two partitions is never written back into the result list", f)
     rets = returned_exprs(f.node)
